@@ -124,6 +124,7 @@ def build_packets(case):
         body = p["mark"].to_bytes(4, "big")
         for (_, bits), v in zip(case["extra"], p["extra"]):
             body += (v % (1 << bits)).to_bytes(bits // 8, "big")
+        body += bytes(p.get("pad", 0))    # data beyond what the definition reads (packets of up to 65536 data bytes)
         pkts.append(pk.mkpacket(p["apid"], body, seqflags=p["sf"], seqcount=p["sc"], version=p["v"], ptype=p["t"],
                                 shflag=p["sh"]))
     return pkts
@@ -146,6 +147,8 @@ def check_listing(ctx, case, workdir):
     size = os.path.getsize(path)
     ctx.count()
     ctx.cls(f"describe n={n}" + (" +truncated tail" if tail else ""))
+    if any(len(p) > 32768 + 6 for p in pkts):
+        ctx.cls("file holds a packet with more than 32768 data bytes")
     if n != 10:
         ctx.nontrivial(("d", case["packets"], case.get("tail", "")))
     gopts = case.get("gopts", [])
@@ -246,6 +249,7 @@ def gen_case(draw, n, with_tail=False):
                 seen.add(key)
                 break
         p["mark"] = marks[i]
+        p["pad"] = draw(st.sampled_from([0] * 14 + [1, 300, 32764, 32765, 50000, 65520]))
         p["extra"] = [draw(st.integers(0, 99)) for _ in extra]   # small values: cannot collide with a marker
         pkts.append(p)
     # re-transmissions: byte-identical copies of earlier packets are packets too
